@@ -725,7 +725,7 @@ int main() {
       if (g_live != before) std::cout << " | !!leak=" << (g_live - before);
     } else {
       std::cout << g_res << " | abandoned";   // the case's objects are deliberately not destructed
-      g_res = std::string();
+      std::string().swap(g_res);
     }
     std::cout << "\n";
   }
